@@ -139,6 +139,11 @@ func NewModule(name string, code *compiler.Code) *Module {
 	for i := 0; i < globalsCount; i++ {
 		symbol := code.Global(i)
 		globalsIndex[symbol.Name()] = int(i)
+		// A variable of a nested block has a slot of its own and may have the
+		// same name: the attribute is the module's top-level variable
+		if top, ok := code.GlobalSymbol(symbol.Name()); ok {
+			globalsIndex[symbol.Name()] = int(top.Index())
+		}
 		value := symbol.Value()
 		switch value := value.(type) {
 		case int64:
